@@ -16,10 +16,15 @@ structure UTab where
   toLower : Nat → Nat
   isLetterOrDigit : Nat → Bool
 
+/-- upper-case letters whose lower-case form has a different UTF-8 length (or lies in another block):
+    İ→i, Ⱥ→ⱥ, K (Kelvin)→k, Å (Angstrom)→å, Ω (Ohm)→ω, ẞ→ß -/
+def oddCase : List (Nat × Nat) := [(0x130, 0x69), (0x23A, 0x2C65), (0x212A, 0x6B), (0x212B, 0xE5), (0x2126, 0x3C9), (0x1E9E, 0xDF)]
+
 /-- ASCII plus the few non-ASCII letters the shape generator uses -/
 def uTab : UTab where
-  isUpper r := (65 ≤ r && r ≤ 90) || r == 0xC9 || r == 0x3A9 || (0xC0 ≤ r && r ≤ 0xDE && r != 0xD7)
-  toLower r := if 65 ≤ r && r ≤ 90 then r + 32 else if r == 0x3A9 then 0x3C9 else if 0xC0 ≤ r && r ≤ 0xDE && r != 0xD7 then r + 32 else r
+  isUpper r := (65 ≤ r && r ≤ 90) || r == 0xC9 || r == 0x3A9 || (0xC0 ≤ r && r ≤ 0xDE && r != 0xD7) || (oddCase.lookup r).isSome
+  toLower r := if 65 ≤ r && r ≤ 90 then r + 32 else if r == 0x3A9 then 0x3C9 else if 0xC0 ≤ r && r ≤ 0xDE && r != 0xD7 then r + 32
+               else (oddCase.lookup r).getD r
   isLetterOrDigit r := (48 ≤ r && r ≤ 57) || (65 ≤ r && r ≤ 90) || (97 ≤ r && r ≤ 122) || (r ≥ 0xC0 && r != 0xD7 && r != 0xF7 && r != runeError)
 
 /-- `downcaseFirstLetter` (after the repair: the first rune is decoded) -/
